@@ -41,8 +41,10 @@ CHECKS["C16"] = dict(
     level_text=("Generated-input search with an exact one-directional oracle (no false negative); this is the whole "
                 "property, the false-positive rate is deliberately not judged."),
     level_note="trusted: the procedural key expansion (SHA-256 of seed and counter)",
-    quick=[dict(pkg="pure", test="TestC16", shards=16, checks=250, timeout=150)],
-    thorough=[dict(pkg="pure", test="TestC16", shards=16, checks=12000, timeout=1200)],
+    quick=[dict(pkg="pure", test="TestC16", shards=12, checks=250, timeout=150),
+           dict(pkg="lvl", test="TestC16Levels", shards=4, checks=40, timeout=200)],
+    thorough=[dict(pkg="pure", test="TestC16", shards=16, checks=12000, timeout=1200),
+              dict(pkg="lvl", test="TestC16Levels", shards=16, checks=1500, timeout=1200)],
 )
 
 CHECKS["C13"] = dict(
@@ -103,8 +105,65 @@ CHECKS["C11"] = dict(
               dict(pkg="pure", test="TestC11Conc", race=True, shards=16, checks=150, timeout=900)],
 )
 
+_LV_GEN = ("rapid draws a levelManager case: L0TargetNum 1..3, LevelRatio 1..3, DataBlockByteThreshold in "
+           "{1,2,10,30,80,200,4096}, a universe of 2..8 trap-pool keys (+ absent keys), 2..20 ops of Flush(batch) / "
+           "identical re-flush of an older batch / SetWatermark / CheckAndCompact / Recover. Batches are sorted sets of "
+           "versioned entries in commit order (version ranges non-decreasing from batch to batch, a timestamp may straddle "
+           "two batches, narrow one/two-key batches so that L1 grows and compactions cascade), 25% tombstones, unique value "
+           "tokens, some empty values; only table layouts reachable by flushToL0 + checkAndCompact + recover are produced. ")
+
+CHECKS["C10"] = dict(
+    level="exploration",
+    engine="lvl",
+    technique="differential property test (rapid): real levelManager lookups vs brute-force scan of the tables' contents; exhaustive enumeration of a small universe",
+    design_ref="DESIGN.md §7 C10",
+    rule=(_LV_GEN + "After every flush, compaction and recovery, for EVERY (key, ts) with key in universe + absent keys and "
+          "ts in 0..max+1, Lookup(key, ts) (the production searchLowerBound + same-key filter, through the verif accessor) "
+          "must equal the brute-force best (largest version <= ts) over the entries the tables physically hold: same "
+          "versioned key, value, tombstone flag, or not-found; before any compaction the tables must hold exactly the "
+          "flushed multiset. Non-trivial: >= 2 tables, a table with >= 2 blocks, and a query whose answer lives in a "
+          "different table than the first one containing the key. Second leg: the small universe {a, a!, a1} x versions "
+          "1..4 - every subset of the 12 entries x 5 split points into two version-ordered tables x block size {1 entry, "
+          "all} x {handles as built, handles rebuilt by Recover} = 81920 layouts x 42 queries (7 keys incl. absent ones "
+          "before/between/after x ts 0..5) - is ENUMERATED COMPLETELY in both tiers (non-trivial there: two tables, one "
+          "entry per block, >= 4 entries)."),
+    assumptions=["table layouts are those reachable from flush batches in commit order (DESIGN.md G1)",
+                 "bloom false positives occur naturally at ~1% and are not forced"],
+    level_text=("Differential search: the production lookup path against an obviously-correct scan over the same data, "
+                "for all queries of each generated layout; the small universe is enumerated exhaustively."),
+    level_note="trusted: vlib.Best / vlib.LessV (written independently of types.CompareKeys) and the verif-only accessor, which only delegates to searchLowerBound, flushToL0, recover, fetch",
+    death_is_violation=True,
+    quick=[dict(pkg="lvl", test="TestC10", shards=16, checks=30, timeout=300, gomaxprocs=1),
+           dict(pkg="lvl", test="TestC10Exh", shards=16, checks=1, timeout=300, gomaxprocs=1, env={"VERIF_EXH": "all", "VERIF_NSHARDS": 16})],
+    thorough=[dict(pkg="lvl", test="TestC10", shards=16, checks=2500, timeout=2400),
+              dict(pkg="lvl", test="TestC10Exh", shards=16, checks=1, timeout=600, gomaxprocs=1, env={"VERIF_EXH": "all", "VERIF_NSHARDS": 16})],
+)
+
+CHECKS["C09"] = dict(
+    level="exploration",
+    engine="lvl",
+    technique="metamorphic/differential property test (rapid): lookups before vs after compaction and recovery, anchored on a reference over everything flushed",
+    design_ref="DESIGN.md §7 C09",
+    rule=(_LV_GEN + "Around every CheckAndCompact and Recover, every (key, ts) with ts in [watermark, max+1] is looked up before "
+          "and after; an answer (value or not-found, tombstone == not-found) that agreed with the reference best over ALL "
+          "entries ever flushed before the step must still agree after it (queries already wrong before are C10's business "
+          "and are counted, not judged). After a compaction every physical entry must be one of the flushed entries, "
+          "unchanged. Non-trivial: a compaction really happened (set of table files changed) and either a tombstone "
+          "shadowed an older value of a key or the watermark fell strictly between two versions of a key."),
+    assumptions=["watermarks are monotone and at most max flushed version + 2 (readMark.DoneUntil never exceeds the last commit timestamp)",
+                 "a legitimate drop of bottom-level tombstones would not be reported (tombstone and absent both read as not-found)"],
+    level_text=("Generated-layout search with a before/after relation on the production compaction code, driven only "
+                "through checkAndCompact (reachable table selections)."),
+    level_note="trusted: vlib.Best over the flushed multiset; watermark steering through the stub oracle's readMark (Done + VerifSync)",
+    death_is_violation=True,
+    quick=[dict(pkg="lvl", test="TestC09", shards=16, checks=90, timeout=300, gomaxprocs=1)],
+    thorough=[dict(pkg="lvl", test="TestC09", shards=16, checks=4000, timeout=2400)],
+)
+
 ENGINES = [
-    {"name": "pure", "path": "harness/checks/pure", "serves_properties": ["C09", "C10", "C11", "C13", "C16", "C17"],
+    {"name": "lvl", "path": "harness/checks/lvl", "serves_properties": ["C09", "C10", "C16"],
+     "kind_free_text": "real levelManager over a scratch directory through the verif-only accessor; generated flush/compact/recover sequences, brute-force and before/after oracles, exhaustive small universe"},
+    {"name": "pure", "path": "harness/checks/pure", "serves_properties": ["C11", "C13", "C16", "C17"],
      "kind_free_text": "component-level rapid properties against reference models / round trips, native fuzz bridge in the thorough tier"},
 ]
 
